@@ -92,6 +92,7 @@ package keeper
 //@ func (Keeper).CancelAuction
 //@ requires InvAuctions()
 //@ modifies Auction, Bal, HookN, HookT, SetT, XferN, XferT
+//@ ensures [C09,C13,C19] instalment-and-matched-length-invariants-are-kept: err == nil && old(Inv() && InvVQ() && InvMatched()) ==> InvVQ() && InvMatched()
 //@ ensures [C15,C10,C11] auction-ids-stay-dense: err == nil && old(InvAuctionsDense()) ==> InvAuctionsDense()
 //@ ensures [C12,C08,C18] only-auctioneer-only-standby: err == nil ==> old(Auction[msg.AuctionId]).present && old(Auction[msg.AuctionId]).Status == AuctionStatusStandBy && old(Auction[msg.AuctionId]).Auctioneer == msg.Auctioneer
 //@ ensures [C12,C08] becomes-cancelled: err == nil ==> Auction[msg.AuctionId].present && Auction[msg.AuctionId].Status == AuctionStatusCancelled
@@ -166,6 +167,7 @@ package keeper
 //@ requires Inv() && wfPlaceBid(msg) && !isEscrow(addrOf(msg.Bidder))
 //@ requires BidSeq[msg.AuctionId] < 18446744073709551615
 //@ modifies Auction, Bid, BidSeq, Bal, Pool, HookN, HookT, SetT, XferN, XferT
+//@ ensures [C09,C13,C19] instalment-and-matched-length-invariants-are-kept: err == nil && old(Inv() && InvVQ() && InvMatched()) ==> InvVQ() && InvMatched()
 //@ ensures [C15,C10,C11] auction-ids-stay-dense: err == nil && old(InvAuctionsDense()) ==> InvAuctionsDense()
 //@ ensures [C08,C18] only-while-open: err == nil ==> old(Auction[msg.AuctionId]).present && old(Auction[msg.AuctionId]).Status == AuctionStatusStarted
 //@ ensures [C10,C18] only-allow-listed: err == nil ==> old(AllowedBidder[msg.AuctionId][addrOf(msg.Bidder)]).present
@@ -193,6 +195,7 @@ package keeper
 //@ func (Keeper).ModifyBid
 //@ requires Inv() && wfModifyBid(msg) && !isEscrow(addrOf(msg.Bidder))
 //@ modifies Bid, Bal, HookN, HookT, SetT, XferN, XferT
+//@ ensures [C09,C13,C19] instalment-and-matched-length-invariants-are-kept: err == nil && old(Inv() && InvVQ() && InvMatched()) ==> InvVQ() && InvMatched()
 //@ ensures [C11,C08,C18] only-while-open-batch: result == nil ==> Auction[msg.AuctionId].present && Auction[msg.AuctionId].Status == AuctionStatusStarted && Auction[msg.AuctionId].Kind == KindBatch
 //@ ensures [C11,C18] only-an-existing-bid-of-the-signer: result == nil ==> old(Bid[msg.AuctionId][msg.BidId]).present && old(Bid[msg.AuctionId][msg.BidId]).Bidder == msg.Bidder
 //@ ensures [C11,C18] price-floor-and-denomination: result == nil ==> msg.Price >= Auction[msg.AuctionId].MinBidPrice && msg.Coin.Denom == old(Bid[msg.AuctionId][msg.BidId]).Coin.Denom
@@ -212,6 +215,7 @@ package keeper
 //@ func (Keeper).CreateFixedPriceAuction
 //@ requires Inv() && wfCreateFixed(msg) && timesSane(msg.VestingSchedules) && !isEscrow(addrOf(msg.Auctioneer)) && AuctionSeq < 18446744073709551615
 //@ modifies Auction, AuctionSeq, Bal, Pool, HookN, HookT, SetT, XferN, XferT
+//@ ensures [C09,C13,C19] instalment-and-matched-length-invariants-are-kept: err == nil && old(Inv() && InvVQ() && InvMatched()) ==> InvVQ() && InvMatched()
 //@ ensures [C15,C10,C11] auction-ids-stay-dense: err == nil && old(InvAuctionsDense()) ==> InvAuctionsDense()
 //@ ensures [C18] end-not-passed-and-schedule-limit: err == nil ==> BlockTime <= msg.EndTime && len(msg.VestingSchedules) <= 100
 //@ ensures [C19] id-is-next: err == nil ==> result0.Id == old(AuctionSeq) && AuctionSeq == old(AuctionSeq) + 1 && !old(Auction[result0.Id]).present
@@ -231,6 +235,7 @@ package keeper
 //@ func (Keeper).CreateBatchAuction
 //@ requires Inv() && wfCreateBatch(msg) && timesSane(msg.VestingSchedules) && !isEscrow(addrOf(msg.Auctioneer)) && AuctionSeq < 18446744073709551615
 //@ modifies Auction, AuctionSeq, Bal, Pool, HookN, HookT, SetT, XferN, XferT
+//@ ensures [C09,C13,C19] instalment-and-matched-length-invariants-are-kept: err == nil && old(Inv() && InvVQ() && InvMatched()) ==> InvVQ() && InvMatched()
 //@ ensures [C15,C10,C11] auction-ids-stay-dense: err == nil && old(InvAuctionsDense()) ==> InvAuctionsDense()
 //@ ensures [C18,C13] end-not-passed-and-limits: err == nil ==> BlockTime <= msg.EndTime && len(msg.VestingSchedules) <= 100 && msg.MaxExtendedRound <= 30
 //@ ensures [C19] id-is-next: err == nil ==> result0.Id == old(AuctionSeq) && AuctionSeq == old(AuctionSeq) + 1 && !old(Auction[result0.Id]).present
@@ -251,6 +256,7 @@ package keeper
 //@ func (Keeper).AddAllowedBidders
 //@ requires Inv() && InvAllowedKey()
 //@ modifies AllowedBidder, HookN, HookT, SetT
+//@ ensures [C09,C13,C19] instalment-and-matched-length-invariants-are-kept: err == nil && old(Inv() && InvVQ() && InvMatched()) ==> InvVQ() && InvMatched()
 //@ ensures [C10,C18] needs-an-existing-auction-and-a-non-empty-list: result == nil ==> len(allowedBidders) > 0 && Auction[auctionId].present
 //@ ensures [C05,C10] every-entry-valid-and-within-the-offer: result == nil ==> forall(j, int, 0 <= j && j < len(allowedBidders) ==> validAddr(allowedBidders[j].Bidder) && allowedBidders[j].MaxBidAmount > 0 && allowedBidders[j].MaxBidAmount <= Auction[auctionId].SellingCoin.Amount)
 //@ ensures [C10,C19] entries-stored-under-the-auction-and-their-bidder: result == nil ==> forall(j, int, 0 <= j && j < len(allowedBidders) ==> AllowedBidder[auctionId][addrOf(allowedBidders[j].Bidder)].present)
@@ -269,6 +275,7 @@ package keeper
 //@ func (Keeper).UpdateAllowedBidder
 //@ requires Inv() && InvAllowedKey()
 //@ modifies AllowedBidder, HookN, HookT, SetT
+//@ ensures [C09,C13,C19] instalment-and-matched-length-invariants-are-kept: err == nil && old(Inv() && InvVQ() && InvMatched()) ==> InvVQ() && InvMatched()
 //@ ensures [C10,C18] only-an-existing-entry-of-an-existing-auction: result == nil ==> Auction[auctionId].present && old(AllowedBidder[auctionId][bidder]).present && maxBidAmount > 0
 //@ ensures [C10,C05] entry-gets-the-new-cap: result == nil ==> AllowedBidder[auctionId][bidder].present && AllowedBidder[auctionId][bidder].MaxBidAmount == maxBidAmount && AllowedBidder[auctionId][bidder].Bidder == strOf(bidder) && AllowedBidder[auctionId][bidder].AuctionId == auctionId
 //@ ensures [C19,C10] other-entries-untouched: forall(x, uint64, forall(ad, Addr, x != auctionId || ad != bidder ==> AllowedBidder[x][ad] == old(AllowedBidder[x][ad])))
@@ -282,6 +289,7 @@ package keeper
 //@ func (msgServer).AddAllowedBidder
 //@ requires Inv() && InvAllowedKey()
 //@ modifies AllowedBidder, HookN, HookT, SetT
+//@ ensures [C09,C13,C19] instalment-and-matched-length-invariants-are-kept: err == nil && old(Inv() && InvVQ() && InvMatched()) ==> InvVQ() && InvMatched()
 //@ ensures [C10] refused-unless-the-testing-switch-is-on: !EnableAddAllowedBidder ==> result1 != nil && AllowedBidder == old(AllowedBidder)
 //@ ensures [C10,C18] accepted-only-for-a-valid-entry: result1 == nil ==> EnableAddAllowedBidder && validAddr(msg.AllowedBidder.Bidder) && Auction[msg.AuctionId].present && msg.AllowedBidder.MaxBidAmount > 0
 //@ ensures [C10,C19] preserves-the-invariant: InvAllowed()
@@ -289,6 +297,7 @@ package keeper
 //@ func (msgServer).PlaceBid
 //@ requires Inv() && wfPlaceBid(msg) && !isEscrow(addrOf(msg.Bidder)) && BidSeq[msg.AuctionId] < 18446744073709551615
 //@ modifies Auction, Bid, BidSeq, Bal, Pool, HookN, HookT, SetT, XferN, XferT
+//@ ensures [C09,C13,C19] instalment-and-matched-length-invariants-are-kept: err == nil && old(Inv() && InvVQ() && InvMatched()) ==> InvVQ() && InvMatched()
 //@ ensures [C15,C10,C11] auction-ids-stay-dense: err == nil && old(InvAuctionsDense()) ==> InvAuctionsDense()
 //@ ensures [C10,C18,C08] recorded-only-for-allow-listed-bidders-of-open-auctions: result1 == nil ==> old(AllowedBidder[msg.AuctionId][addrOf(msg.Bidder)]).present && old(Auction[msg.AuctionId]).Status == AuctionStatusStarted
 //@ ensures [C01,C10,C19] preserves-the-invariant: result1 == nil ==> Inv()
@@ -296,12 +305,14 @@ package keeper
 //@ func (msgServer).ModifyBid
 //@ requires Inv() && wfModifyBid(msg) && !isEscrow(addrOf(msg.Bidder))
 //@ modifies Bid, Bal, HookN, HookT, SetT, XferN, XferT
+//@ ensures [C09,C13,C19] instalment-and-matched-length-invariants-are-kept: err == nil && old(Inv() && InvVQ() && InvMatched()) ==> InvVQ() && InvMatched()
 //@ ensures [C11,C08] only-the-owner-while-open: result1 == nil ==> old(Bid[msg.AuctionId][msg.BidId]).present && old(Bid[msg.AuctionId][msg.BidId]).Bidder == msg.Bidder && Auction[msg.AuctionId].Status == AuctionStatusStarted
 //@ ensures [C01,C10,C19] preserves-the-invariant: result1 == nil ==> Inv()
 
 //@ func (msgServer).CancelAuction
 //@ requires Inv() && wfCancel(msg)
 //@ modifies Auction, Bal, HookN, HookT, SetT, XferN, XferT
+//@ ensures [C09,C13,C19] instalment-and-matched-length-invariants-are-kept: err == nil && old(Inv() && InvVQ() && InvMatched()) ==> InvVQ() && InvMatched()
 //@ ensures [C15,C10,C11] auction-ids-stay-dense: err == nil && old(InvAuctionsDense()) ==> InvAuctionsDense()
 //@ ensures [C12,C08] only-the-auctioneer-before-opening: result1 == nil ==> old(Auction[msg.AuctionId]).Status == AuctionStatusStandBy && old(Auction[msg.AuctionId]).Auctioneer == msg.Auctioneer && Auction[msg.AuctionId].Status == AuctionStatusCancelled
 //@ ensures [C19] preserves-the-invariant: InvAuctions()
@@ -309,17 +320,20 @@ package keeper
 //@ func (msgServer).CreateFixedPriceAuction
 //@ requires Inv() && wfCreateFixed(msg) && timesSane(msg.VestingSchedules) && !isEscrow(addrOf(msg.Auctioneer)) && AuctionSeq < 18446744073709551615
 //@ modifies Auction, AuctionSeq, Bal, Pool, HookN, HookT, SetT, XferN, XferT
+//@ ensures [C09,C13,C19] instalment-and-matched-length-invariants-are-kept: err == nil && old(Inv() && InvVQ() && InvMatched()) ==> InvVQ() && InvMatched()
 //@ ensures [C15,C10,C11] auction-ids-stay-dense: err == nil && old(InvAuctionsDense()) ==> InvAuctionsDense()
 //@ ensures [C19,C01] preserves-the-invariant: result1 == nil ==> Inv() && AuctionSeq == old(AuctionSeq) + 1
 
 //@ func (msgServer).CreateBatchAuction
 //@ requires Inv() && wfCreateBatch(msg) && timesSane(msg.VestingSchedules) && !isEscrow(addrOf(msg.Auctioneer)) && AuctionSeq < 18446744073709551615
 //@ modifies Auction, AuctionSeq, Bal, Pool, HookN, HookT, SetT, XferN, XferT
+//@ ensures [C09,C13,C19] instalment-and-matched-length-invariants-are-kept: err == nil && old(Inv() && InvVQ() && InvMatched()) ==> InvVQ() && InvMatched()
 //@ ensures [C15,C10,C11] auction-ids-stay-dense: err == nil && old(InvAuctionsDense()) ==> InvAuctionsDense()
 //@ ensures [C19,C01] preserves-the-invariant: result1 == nil ==> Inv() && AuctionSeq == old(AuctionSeq) + 1
 
 //@ func (msgServer).UpdateParams
 //@ modifies Params, SetT
+//@ ensures [C09,C13,C19] instalment-and-matched-length-invariants-are-kept: err == nil && old(Inv() && InvVQ() && InvMatched()) ==> InvVQ() && InvMatched()
 //@ ensures [C18] only-the-authority-with-valid-params: result1 == nil ==> k.authority == req.Authority && Params.present && Params.AuctionCreationFee == req.Params.AuctionCreationFee && Params.PlaceBidFee == req.Params.PlaceBidFee && Params.ExtendedPeriod == req.Params.ExtendedPeriod
 //@ ensures [C18] rejected-leaves-params: result1 != nil ==> Params == old(Params)
 //@ ensures [C15,C18] stored-parameters-stay-valid: old(InvParams()) ==> InvParams()
@@ -332,18 +346,22 @@ package keeper
 //@ walk 0 invariant len(bids) == idx && forall(j, int, 0 <= j && j < idx ==> bids[j] == walkVal(j))
 
 //@ func (Keeper).GetAllowedBiddersByAuction
+//@ serves C07
 //@ ensures [C05,C03] every-allow-listed-bidder-is-listed-once-with-a-positive-cap: InvAllowed() ==> capsOK(result0) && forall(ad, Addr, AllowedBidder[auctionId][ad].present ==> ite(result0[listPos(domOf(AllowedBidder, auctionId), ad)].Bidder == strOf(ad), indexIn(result0, Bidder, strOf(ad)) >= 0, false))
 //@ ensures [C19,C05,C03] exactly-the-allow-list-of-the-auction: result1 == nil && len(result0) == listN(domOf(AllowedBidder, auctionId)) && forall(j, int, 0 <= j && j < len(result0) ==> result0[j] == AllowedBidder[auctionId][listKey(domOf(AllowedBidder, auctionId), j)])
 //@ walk 0 invariant len(allowedBidders) == idx && forall(j, int, 0 <= j && j < idx ==> allowedBidders[j] == walkVal(j))
 
 //@ func (Keeper).GetVestingQueuesByAuctionId
+//@ serves C07
 //@ ensures [C19,C09] exactly-the-instalments-of-the-auction-in-release-order: result1 == nil && len(result0) == ilistN(domOf(VestingQueue, auctionId)) && forall(j, int, 0 <= j && j < len(result0) ==> result0[j] == VestingQueue[auctionId][ilistKey(domOf(VestingQueue, auctionId), j)])
 //@ walk 0 invariant len(vestingQueues) == idx && forall(j, int, 0 <= j && j < idx ==> vestingQueues[j] == walkVal(j))
 
 //@ func (Keeper).GetLastMatchedBidsLen
+//@ serves C07
 //@ ensures [C13] absent-means-zero: result1 == nil && result0 == MatchedBidsLen[auctionId]
 
 //@ func (Keeper).SetMatchedBidsLen
+//@ serves C07
 //@ modifies MatchedBidsLen, SetT
 //@ ensures [C13] stores-the-length: result == nil && MatchedBidsLen[auctionId].present && MatchedBidsLen[auctionId] == matchedLen
 //@ ensures [C13,C19] other-auctions-untouched: forall(x, uint64, x != auctionId ==> MatchedBidsLen[x] == old(MatchedBidsLen[x]))
@@ -355,15 +373,16 @@ package keeper
 //@ requires auctionFieldsWF(auction, auction.Id) && auction.Id < 18446744073709551616
 //@ requires forall(t, Time, !VestingQueue[auction.Id][t].present)
 //@ modifies Auction, VestingQueue, Bal, SetT, XferN, XferT, *auction
+//@ ensures [C19,C07] object-and-record-stay-well-formed: err == nil ==> auctionFieldsWF(auction, auction.Id) && (old(Auction[auction.Id].present ==> auctionFieldsWF(Auction[auction.Id], auction.Id)) && Auction[auction.Id].present ==> auctionFieldsWF(Auction[auction.Id], auction.Id))
 //@ ensures [C15,C10,C11] auction-ids-stay-dense: err == nil && old(InvAuctionsDense()) && old(Auction[auction.Id].present) ==> InvAuctionsDense()
 //@ ensures [C09,C02,C08] no-schedule-pays-everything-at-once: result == nil && len(auction.VestingSchedules) == 0 ==> let(pd, auction.PayingCoinDenom, let(R, old(bal(payEsc(auction.Id), pd)), bal(payEsc(auction.Id), pd) == 0 && bal(addrOf(auction.Auctioneer), pd) == old(bal(addrOf(auction.Auctioneer), pd)) + R && auction.Status == AuctionStatusFinished && VestingQueue == old(VestingQueue)))
 //@ ensures [C09,C01,C02] proceeds-move-to-the-vesting-escrow: result == nil && len(auction.VestingSchedules) > 0 ==> let(pd, auction.PayingCoinDenom, let(R, old(bal(payEsc(auction.Id), pd)), bal(payEsc(auction.Id), pd) == 0 && bal(vestEsc(auction.Id), pd) == old(bal(vestEsc(auction.Id), pd)) + R && auction.Status == AuctionStatusVesting))
-//@ ensures [C09] floor-shares-and-remainder-to-the-last: result == nil ==> let(R, old(bal(payEsc(auction.Id), auction.PayingCoinDenom)), forall(j, int, 0 <= j && j < len(auction.VestingSchedules) ==> let(q, VestingQueue[auction.Id][auction.VestingSchedules[j].ReleaseTime], q.present && q.PayingCoin.Amount == instalment(auction.VestingSchedules, R, j) && q.PayingCoin.Amount >= 0 && q.PayingCoin.Denom == auction.PayingCoinDenom && !q.Released && q.ReleaseTime == auction.VestingSchedules[j].ReleaseTime && q.AuctionId == auction.Id && q.Auctioneer == auction.Auctioneer)))
+//@ ensures [C09,C07] floor-shares-and-remainder-to-the-last: result == nil ==> let(R, old(bal(payEsc(auction.Id), auction.PayingCoinDenom)), forall(j, int, 0 <= j && j < len(auction.VestingSchedules) ==> let(q, VestingQueue[auction.Id][auction.VestingSchedules[j].ReleaseTime], q.present && q.PayingCoin.Amount == instalment(auction.VestingSchedules, R, j) && q.PayingCoin.Amount >= 0 && q.PayingCoin.Denom == auction.PayingCoinDenom && !q.Released && q.ReleaseTime == auction.VestingSchedules[j].ReleaseTime && q.AuctionId == auction.Id && q.Auctioneer == auction.Auctioneer)))
 //@ ensures [C09,C01] instalments-sum-to-the-proceeds: result == nil && len(auction.VestingSchedules) > 0 ==> let(R, old(bal(payEsc(auction.Id), auction.PayingCoinDenom)), sum(j, 0, len(auction.VestingSchedules), instalment(auction.VestingSchedules, R, j)) == R)
 //@ ensures [C09,C19] no-other-instalment-appears: forall(x, uint64, forall(t, Time, VestingQueue[x][t].present && !old(VestingQueue[x][t]).present ==> x == auction.Id && result == nil && exists(j, int, 0 <= j && j < len(auction.VestingSchedules) && auction.VestingSchedules[j].ReleaseTime == t)))
 //@ ensures [C19] existing-instalments-untouched: forall(x, uint64, forall(t, Time, old(VestingQueue[x][t]).present ==> VestingQueue[x][t] == old(VestingQueue[x][t])))
 //@ ensures [C19,C08] only-the-status-of-this-auction-changes: sameExcept(auction, old(auction), Status) && forall(x, uint64, x != auction.Id ==> Auction[x] == old(Auction[x]))
-//@ ensures [C08,C16] record-written-with-the-new-status: result == nil ==> Auction[auction.Id].present && Auction[auction.Id].Status == auction.Status && Auction[auction.Id].Kind == auction.Kind && sameExcept(Auction[auction.Id], auction)
+//@ ensures [C08,C16,C07] record-written-with-the-new-status: result == nil ==> Auction[auction.Id].present && Auction[auction.Id].Status == auction.Status && Auction[auction.Id].Kind == auction.Kind && sameExcept(Auction[auction.Id], auction)
 //@ ensures [C02,C19] no-other-balance-moves: let(pd, auction.PayingCoinDenom, forall(ad, Addr, forall(d, string, d != pd || (ad != payEsc(auction.Id) && ad != vestEsc(auction.Id) && ad != addrOf(auction.Auctioneer)) ==> bal(ad, d) == old(bal(ad, d)))))
 //@ ensures [C07] fails-only-if-the-bank-refuses: ExternOK ==> result == nil
 //@ loop 0 let R = reserveCoin.Amount
@@ -381,7 +400,7 @@ package keeper
 //@ func (Keeper).RefundRemainingSellingCoin
 //@ requires auctionFieldsWF(auction, auction.Id)
 //@ modifies Bal, XferN, XferT
-//@ ensures [C01,C02] selling-escrow-emptied-into-the-auctioneer: result == nil ==> let(sd, auction.SellingCoin.Denom, bal(sellEsc(auction.Id), sd) == 0 && bal(addrOf(auction.Auctioneer), sd) == old(bal(addrOf(auction.Auctioneer), sd)) + old(bal(sellEsc(auction.Id), sd)))
+//@ ensures [C01,C02,C07] selling-escrow-emptied-into-the-auctioneer: result == nil ==> let(sd, auction.SellingCoin.Denom, bal(sellEsc(auction.Id), sd) == 0 && bal(addrOf(auction.Auctioneer), sd) == old(bal(addrOf(auction.Auctioneer), sd)) + old(bal(sellEsc(auction.Id), sd)))
 //@ ensures [C02,C19] no-other-balance-moves: forall(ad, Addr, forall(d, string, d != auction.SellingCoin.Denom || (ad != sellEsc(auction.Id) && ad != addrOf(auction.Auctioneer)) ==> bal(ad, d) == old(bal(ad, d))))
 //@ ensures [C07] fails-only-if-the-bank-refuses: ExternOK ==> result == nil
 //@ ensures result != nil ==> Bal == old(Bal)
@@ -389,16 +408,18 @@ package keeper
 // ReleaseVestingPayingCoin (C09, C08, C16): every due, unreleased instalment is paid once to the auctioneer and flagged
 // released; the auction finishes when the last instalment (in release order) is released.
 //@ func (Keeper).ReleaseVestingPayingCoin
+//@ serves C07
 //@ requires auctionFieldsWF(auction, auction.Id) && auction.Id < 18446744073709551616
 //@ requires auction.Status == AuctionStatusVesting
 //@ requires forall(t, Time, let(q, VestingQueue[auction.Id][t], q.present ==> q.AuctionId == auction.Id && q.ReleaseTime == t && q.PayingCoin.Amount >= 0 && validDenom(q.PayingCoin.Denom)))
 //@ modifies Auction, VestingQueue, Bal, SetT, XferN, XferT, *auction
+//@ ensures [C19,C07] object-and-record-stay-well-formed: err == nil ==> auctionFieldsWF(auction, auction.Id) && (old(Auction[auction.Id].present ==> auctionFieldsWF(Auction[auction.Id], auction.Id)) && Auction[auction.Id].present ==> auctionFieldsWF(Auction[auction.Id], auction.Id))
 //@ ensures [C15,C10,C11] auction-ids-stay-dense: err == nil && old(InvAuctionsDense()) && old(Auction[auction.Id].present) ==> InvAuctionsDense()
-//@ ensures [C09,C16] due-instalments-are-released-others-untouched: result == nil ==> let(dom, old(domOf(VestingQueue, auction.Id)), forall(j, int, 0 <= j && j < ilistN(dom) ==> let(t, ilistKey(dom, j), let(q, old(VestingQueue[auction.Id][t]), ite(t <= BlockTime && !q.Released, VestingQueue[auction.Id][t].Released && sameExcept(VestingQueue[auction.Id][t], q, Released), VestingQueue[auction.Id][t] == q)))))
-//@ ensures [C09,C02] auctioneer-is-paid-exactly-the-due-instalments: result == nil ==> let(pd, auction.PayingCoinDenom, let(dom, old(domOf(VestingQueue, auction.Id)), bal(addrOf(auction.Auctioneer), pd) == old(bal(addrOf(auction.Auctioneer), pd)) + sum(j, 0, ilistN(dom), ite(ilistKey(dom, j) <= BlockTime && !old(VestingQueue[auction.Id][ilistKey(dom, j)]).Released && old(VestingQueue[auction.Id][ilistKey(dom, j)]).PayingCoin.Denom == pd, old(VestingQueue[auction.Id][ilistKey(dom, j)]).PayingCoin.Amount, 0))))
+//@ ensures [C09,C16,C07] due-instalments-are-released-others-untouched: result == nil ==> let(dom, old(domOf(VestingQueue, auction.Id)), forall(j, int, 0 <= j && j < ilistN(dom) ==> let(t, ilistKey(dom, j), let(q, old(VestingQueue[auction.Id][t]), ite(t <= BlockTime && !q.Released, VestingQueue[auction.Id][t].Released && sameExcept(VestingQueue[auction.Id][t], q, Released), VestingQueue[auction.Id][t] == q)))))
+//@ ensures [C09,C02,C07] auctioneer-is-paid-exactly-the-due-instalments: result == nil ==> let(pd, auction.PayingCoinDenom, let(dom, old(domOf(VestingQueue, auction.Id)), bal(addrOf(auction.Auctioneer), pd) == old(bal(addrOf(auction.Auctioneer), pd)) + sum(j, 0, ilistN(dom), ite(ilistKey(dom, j) <= BlockTime && !old(VestingQueue[auction.Id][ilistKey(dom, j)]).Released && old(VestingQueue[auction.Id][ilistKey(dom, j)]).PayingCoin.Denom == pd, old(VestingQueue[auction.Id][ilistKey(dom, j)]).PayingCoin.Amount, 0))))
 //@ ensures [C09,C19] no-instalment-created-or-removed: forall(x, uint64, forall(t, Time, VestingQueue[x][t].present == old(VestingQueue[x][t]).present && (x != auction.Id ==> VestingQueue[x][t] == old(VestingQueue[x][t]))))
 //@ ensures [C09,C16] only-the-released-flag-changes: forall(t, Time, old(VestingQueue[auction.Id][t]).present ==> sameExcept(VestingQueue[auction.Id][t], old(VestingQueue[auction.Id][t]), Released))
-//@ ensures [C08,C09] finishes-exactly-when-the-last-instalment-is-released-now: result == nil ==> let(dom, old(domOf(VestingQueue, auction.Id)), let(n, ilistN(dom), auction.Status == ite(n > 0 && ilistKey(dom, n - 1) <= BlockTime && !old(VestingQueue[auction.Id][ilistKey(dom, n - 1)]).Released, AuctionStatusFinished, old(auction.Status))))
+//@ ensures [C08,C09,C07] finishes-exactly-when-the-last-instalment-is-released-now: result == nil ==> let(dom, old(domOf(VestingQueue, auction.Id)), let(n, ilistN(dom), auction.Status == ite(n > 0 && ilistKey(dom, n - 1) <= BlockTime && !old(VestingQueue[auction.Id][ilistKey(dom, n - 1)]).Released, AuctionStatusFinished, old(auction.Status))))
 //@ ensures [C19,C08] only-the-status-of-this-auction-changes: sameExcept(auction, old(auction), Status) && forall(x, uint64, x != auction.Id ==> Auction[x] == old(Auction[x]))
 //@ ensures [C08,C16] record-follows-the-object: result == nil && auction.Status != old(auction.Status) ==> Auction[auction.Id].present && Auction[auction.Id].Status == AuctionStatusFinished && sameExcept(Auction[auction.Id], auction)
 //@ ensures [C08] record-untouched-otherwise: auction.Status == old(auction.Status) ==> Auction == old(Auction)
@@ -419,9 +440,9 @@ package keeper
 //@ requires len(ba.EndTimes) >= 1 && Params.present && ba.Id < 18446744073709551616
 //@ modifies Auction, SetT, *ba
 //@ ensures [C15,C10,C11] auction-ids-stay-dense: err == nil && old(InvAuctionsDense()) && old(Auction[ba.Id].present) ==> InvAuctionsDense()
-//@ ensures [C13] appends-last-end-plus-period: result == nil ==> len(ba.EndTimes) == old(len(ba.EndTimes)) + 1 && ba.EndTimes[len(ba.EndTimes)-1] == addDays(old(ba.EndTimes[len(ba.EndTimes)-1]), Params.ExtendedPeriod) && forall(j, int, 0 <= j && j < old(len(ba.EndTimes)) ==> ba.EndTimes[j] == old(ba.EndTimes[j]))
+//@ ensures [C13,C07] appends-last-end-plus-period: result == nil ==> len(ba.EndTimes) == old(len(ba.EndTimes)) + 1 && ba.EndTimes[len(ba.EndTimes)-1] == addDays(old(ba.EndTimes[len(ba.EndTimes)-1]), Params.ExtendedPeriod) && forall(j, int, 0 <= j && j < old(len(ba.EndTimes)) ==> ba.EndTimes[j] == old(ba.EndTimes[j]))
 //@ ensures [C13,C19] nothing-else-changes: sameExcept(ba, old(ba), EndTimes) && forall(x, uint64, x != ba.Id ==> Auction[x] == old(Auction[x]))
-//@ ensures [C13,C16] record-written: result == nil ==> Auction[ba.Id].present && Auction[ba.Id].Kind == KindBatch && sameExcept(Auction[ba.Id], ba)
+//@ ensures [C13,C16,C07] record-written: result == nil ==> Auction[ba.Id].present && Auction[ba.Id].Kind == KindBatch && sameExcept(Auction[ba.Id], ba)
 //@ ensures [C07] never-fails: result == nil
 
 // CalculateFixedPriceAllocation (C05, C06): every stored bid is allocated its full converted amount.
@@ -441,24 +462,49 @@ package keeper
 // AllocateSellingCoin / RefundPayingCoin (C02, C14, C17): every bidder in the map receives exactly their amount from the
 // respective escrow; the hook can veto before any transfer.
 //@ func (Keeper).AllocateSellingCoin
-//@ trusted interface contract: the body (three loops over a Go map, a sorted key slice and a map of transfers) is not yet verified against it
+//@ serves C07
 //@ requires auctionFieldsWF(auction, auction.Id)
 //@ requires forall(w, string, has(mInfo.AllocationMap, w) ==> validAddr(w) && mInfo.AllocationMap[w] >= 0 && !isEscrow(addrOf(w)))
 //@ modifies Bal, HookN, HookT, XferN, XferT
-//@ ensures [C02] each-bidder-receives-their-allocation: result == nil ==> forall(w, string, has(mInfo.AllocationMap, w) ==> bal(addrOf(w), auction.SellingCoin.Denom) == old(bal(addrOf(w), auction.SellingCoin.Denom)) + mInfo.AllocationMap[w])
+//@ ensures [C02,C07] each-bidder-receives-their-allocation: result == nil ==> forall(w, string, has(mInfo.AllocationMap, w) ==> bal(addrOf(w), auction.SellingCoin.Denom) == old(bal(addrOf(w), auction.SellingCoin.Denom)) + mInfo.AllocationMap[w])
 //@ ensures [C02,C19] nobody-else-is-touched: forall(ad, Addr, forall(d, string, d != auction.SellingCoin.Denom || (ad != sellEsc(auction.Id) && !has(mInfo.AllocationMap, strOf(ad))) ==> bal(ad, d) == old(bal(ad, d))))
 //@ ensures [C02] escrow-only-decreases: bal(sellEsc(auction.Id), auction.SellingCoin.Denom) <= old(bal(sellEsc(auction.Id), auction.SellingCoin.Denom))
 //@ ensures [C17] hook-can-veto-before-any-transfer: !HookOK ==> result != nil && Bal == old(Bal)
 //@ ensures [C17] hook-fired-once: k.hooks != nil ==> hookN("BeforeSellingCoinsAllocated") == old(hookN("BeforeSellingCoinsAllocated")) + 1
+//@ loop 0 invariant len(bidders) == idx && forall(j, int, 0 <= j && j < idx ==> bidders[j] == rangeKey(j))
+//@ loop 1 invariant 0 <= idx && idx <= len(bidders) && len(bidders) == len(rangeKeys0)
+//@ loop 1 invariant forall(j, int, 0 <= j && j < len(bidders) ==> has(mInfo.AllocationMap, bidders[j]))
+//@ loop 1 invariant forall(i, int, forall(j, int, 0 <= i && i < j && j < len(bidders) ==> bidders[i] != bidders[j]))
+//@ loop 1 invariant forall(w, string, has(mInfo.AllocationMap, w) ==> let(j, sortedInv(rangePos0(w)), 0 <= j && j < len(bidders) && bidders[j] == w))
+//@ loop 1 invariant forall(w, string, has(ioCoins, w) ==> exists(j, int, 0 <= j && j < idx && bidders[j] == w) && mInfo.AllocationMap[w] != 0)
+//@ loop 1 invariant forall(j, int, 0 <= j && j < idx && mInfo.AllocationMap[bidders[j]] != 0 ==> has(ioCoins, bidders[j]))
+//@ loop 1 invariant forall(w, string, has(ioCoins, w) ==> len(ioCoins[w].outputs) == 1 && ioCoins[w].outputs[0].Address == w && ioCoins[w].input.Address == auction.SellingReserveAddress && forall(d, string, coins(ioCoins[w].input.Coins, d) == ite(d == auction.SellingCoin.Denom, mInfo.AllocationMap[w], 0) && coins(ioCoins[w].outputs[0].Coins, d) == ite(d == auction.SellingCoin.Denom, mInfo.AllocationMap[w], 0)))
+//@ loop 2 invariant 0 <= idx && idx <= len(bidders) && HookOK
+//@ loop 2 invariant forall(j, int, 0 <= j && j < len(bidders) ==> bal(addrOf(bidders[j]), auction.SellingCoin.Denom) == old(bal(addrOf(bidders[j]), auction.SellingCoin.Denom)) + ite(j < idx, mInfo.AllocationMap[bidders[j]], 0))
+//@ loop 2 invariant forall(ad, Addr, forall(d, string, d != auction.SellingCoin.Denom || (ad != sellEsc(auction.Id) && !has(mInfo.AllocationMap, strOf(ad))) ==> bal(ad, d) == old(bal(ad, d))))
+//@ loop 2 invariant bal(sellEsc(auction.Id), auction.SellingCoin.Denom) <= old(bal(sellEsc(auction.Id), auction.SellingCoin.Denom))
+//@ loop 2 invariant k.hooks != nil ==> hookN("BeforeSellingCoinsAllocated") == old(hookN("BeforeSellingCoinsAllocated")) + 1
 
 //@ func (Keeper).RefundPayingCoin
-//@ trusted interface contract: the body is not yet verified against it
+//@ serves C07
 //@ requires auctionFieldsWF(auction, auction.Id)
 //@ requires forall(w, string, has(mInfo.RefundMap, w) ==> validAddr(w) && mInfo.RefundMap[w] >= 0 && !isEscrow(addrOf(w)))
 //@ modifies Bal, XferN, XferT
-//@ ensures [C02] each-bidder-receives-their-refund: result == nil ==> forall(w, string, has(mInfo.RefundMap, w) ==> bal(addrOf(w), auction.PayingCoinDenom) == old(bal(addrOf(w), auction.PayingCoinDenom)) + mInfo.RefundMap[w])
+//@ ensures [C02,C07] each-bidder-receives-their-refund: result == nil ==> forall(w, string, has(mInfo.RefundMap, w) ==> bal(addrOf(w), auction.PayingCoinDenom) == old(bal(addrOf(w), auction.PayingCoinDenom)) + mInfo.RefundMap[w])
 //@ ensures [C02,C19] nobody-else-is-touched: forall(ad, Addr, forall(d, string, d != auction.PayingCoinDenom || (ad != payEsc(auction.Id) && !has(mInfo.RefundMap, strOf(ad))) ==> bal(ad, d) == old(bal(ad, d))))
 //@ ensures [C02] escrow-only-decreases: bal(payEsc(auction.Id), auction.PayingCoinDenom) <= old(bal(payEsc(auction.Id), auction.PayingCoinDenom))
+//@ loop 0 invariant len(bidders) == idx && forall(j, int, 0 <= j && j < idx ==> bidders[j] == rangeKey(j))
+//@ loop 1 invariant 0 <= idx && idx <= len(bidders) && len(bidders) == len(rangeKeys0)
+//@ loop 1 invariant forall(j, int, 0 <= j && j < len(bidders) ==> has(mInfo.RefundMap, bidders[j]))
+//@ loop 1 invariant forall(i, int, forall(j, int, 0 <= i && i < j && j < len(bidders) ==> bidders[i] != bidders[j]))
+//@ loop 1 invariant forall(w, string, has(mInfo.RefundMap, w) ==> let(j, sortedInv(rangePos0(w)), 0 <= j && j < len(bidders) && bidders[j] == w))
+//@ loop 1 invariant forall(w, string, has(ioCoins, w) ==> exists(j, int, 0 <= j && j < idx && bidders[j] == w) && mInfo.RefundMap[w] != 0)
+//@ loop 1 invariant forall(j, int, 0 <= j && j < idx && mInfo.RefundMap[bidders[j]] != 0 ==> has(ioCoins, bidders[j]))
+//@ loop 1 invariant forall(w, string, has(ioCoins, w) ==> len(ioCoins[w].outputs) == 1 && ioCoins[w].outputs[0].Address == w && ioCoins[w].input.Address == auction.PayingReserveAddress && forall(d, string, coins(ioCoins[w].input.Coins, d) == ite(d == auction.PayingCoinDenom, mInfo.RefundMap[w], 0) && coins(ioCoins[w].outputs[0].Coins, d) == ite(d == auction.PayingCoinDenom, mInfo.RefundMap[w], 0)))
+//@ loop 2 invariant 0 <= idx && idx <= len(bidders)
+//@ loop 2 invariant forall(j, int, 0 <= j && j < len(bidders) ==> bal(addrOf(bidders[j]), auction.PayingCoinDenom) == old(bal(addrOf(bidders[j]), auction.PayingCoinDenom)) + ite(j < idx, mInfo.RefundMap[bidders[j]], 0))
+//@ loop 2 invariant forall(ad, Addr, forall(d, string, d != auction.PayingCoinDenom || (ad != payEsc(auction.Id) && !has(mInfo.RefundMap, strOf(ad))) ==> bal(ad, d) == old(bal(ad, d))))
+//@ loop 2 invariant bal(payEsc(auction.Id), auction.PayingCoinDenom) <= old(bal(payEsc(auction.Id), auction.PayingCoinDenom))
 
 // CalculateBatchAllocation (C03, C05, C13, C16): builds the order book of the auction, searches the lowest recorded price
 // whose capped demand fits the offer (types.Match decides "fits"; the binary search is the sort.Search schema), and
@@ -476,6 +522,9 @@ package keeper
 //@ trusted-ensures [C01,C04] refunds-are-non-negative: result1 == nil ==> forall(w, string, has(result0.RefundMap, w) ==> result0.RefundMap[w] >= 0)
 //@ search 0 predicate {exact} cappedDemand(allowedBidders, prices, bidsByPrice, priceAt(prices, idxS)) <= sellingAmt
 //@ search 0 invariant bookOK(prices, bidsByPrice, allowedBidders) && capsOK(allowedBidders) && sortedDesc(prices) && sellingAmt >= 0 && forall(i, int, 0 <= i && i < len(prices) ==> ite(bidsByPrice[decStr(prices[i])][0].Price == prices[i], prices[i] > 0, false))
+//@ search 0 invariant {exact} forall(a, int, forall(b, int, forall(i, int, forall(w, string, 0 <= i && i < len(prices) && 0 <= a && a < b && b < len(prices) ==> demGroup(w, bidsByPrice[decStr(prices[i])], len(bidsByPrice[decStr(prices[i])]), priceAt(prices, b)) <= demGroup(w, bidsByPrice[decStr(prices[i])], len(bidsByPrice[decStr(prices[i])]), priceAt(prices, a))))))
+//@ search 0 invariant {exact} forall(a, int, forall(i, int, forall(w, string, 0 <= i && i < len(prices) && 0 <= a && a < len(prices) ==> demGroup(w, bidsByPrice[decStr(prices[i])], len(bidsByPrice[decStr(prices[i])]), priceAt(prices, a)) >= 0)))
+//@ search 0 invariant {exact} forall(a, int, forall(b, int, forall(w, string, 0 <= a && a < b && b < len(prices) ==> demUpTo(w, prices, bidsByPrice, len(prices), priceAt(prices, b)) <= demUpTo(w, prices, bidsByPrice, len(prices), priceAt(prices, a)))))
 //@ search 0 invariant (hiS == len(prices) ==> matchNone(matchRes)) && (hiS < len(prices) ==> matchLight(matchRes, priceAt(prices, hiS), prices, bidsByPrice, sellingAmt, allowedBidders))
 //@ search 0 invariant {exact} hiS < len(prices) ==> matchPost(matchRes, priceAt(prices, hiS), prices, bidsByPrice, sellingAmt, allowedBidders)
 //@ loop 0 invariant 0 <= idx && idx <= len(bids)
@@ -502,23 +551,26 @@ package keeper
 //@ requires InvBidsWF() && 0 <= BidSeq[auction.Id] && dense1(domOf(Bid, auction.Id), BidSeq[auction.Id])
 //@ requires forall(t, Time, !VestingQueue[auction.Id][t].present)
 //@ modifies Auction, VestingQueue, Bal, HookN, HookT, SetT, XferN, XferT, *auction
+//@ ensures [C19,C07] object-and-record-stay-well-formed: err == nil ==> auctionFieldsWF(auction, auction.Id) && (old(Auction[auction.Id].present ==> auctionFieldsWF(Auction[auction.Id], auction.Id)) && Auction[auction.Id].present ==> auctionFieldsWF(Auction[auction.Id], auction.Id))
 //@ ensures [C15,C10,C11] auction-ids-stay-dense: err == nil && old(InvAuctionsDense()) && old(Auction[auction.Id].present) ==> InvAuctionsDense()
-//@ ensures [C08] settles-to-vesting-or-finished: result == nil ==> auction.Status == ite(len(auction.VestingSchedules) == 0, AuctionStatusFinished, AuctionStatusVesting) && Auction[auction.Id].present && Auction[auction.Id].Status == auction.Status && sameExcept(Auction[auction.Id], auction)
-//@ ensures [C01,C02] escrows-drained: result == nil ==> bal(sellEsc(auction.Id), auction.SellingCoin.Denom) == 0 && bal(payEsc(auction.Id), auction.PayingCoinDenom) == 0
-//@ ensures [C02,C05] each-bidder-receives-the-sum-of-their-bids: result == nil ==> forall(w, string, sumSellBy(auction.Id, w, auction.PayingCoinDenom) > 0 ==> bal(addrOf(w), auction.SellingCoin.Denom) >= old(bal(addrOf(w), auction.SellingCoin.Denom)) + sumSellBy(auction.Id, w, auction.PayingCoinDenom))
+//@ ensures [C08,C07] settles-to-vesting-or-finished: result == nil ==> auction.Status == ite(len(auction.VestingSchedules) == 0, AuctionStatusFinished, AuctionStatusVesting) && Auction[auction.Id].present && Auction[auction.Id].Status == auction.Status && sameExcept(Auction[auction.Id], auction)
+//@ ensures [C01,C02,C07] escrows-drained: result == nil ==> bal(sellEsc(auction.Id), auction.SellingCoin.Denom) == 0 && bal(payEsc(auction.Id), auction.PayingCoinDenom) == 0
+//@ ensures [C02,C05,C07] each-bidder-receives-the-sum-of-their-bids: result == nil ==> forall(w, string, sumSellBy(auction.Id, w, auction.PayingCoinDenom) > 0 ==> bal(addrOf(w), auction.SellingCoin.Denom) >= old(bal(addrOf(w), auction.SellingCoin.Denom)) + sumSellBy(auction.Id, w, auction.PayingCoinDenom))
 //@ ensures [C19,C08] only-the-status-of-this-auction-changes: sameExcept(auction, old(auction), Status) && forall(x, uint64, x != auction.Id ==> Auction[x] == old(Auction[x]))
 //@ ensures [C17,C07] veto-and-failures-are-reported: !HookOK ==> result != nil
 //@ ensures [C19] other-auctions-instalments-untouched: forall(x, uint64, forall(t, Time, x != auction.Id ==> VestingQueue[x][t] == old(VestingQueue[x][t])))
-//@ ensures [C09] own-instalments-are-well-formed: forall(t, Time, let(q, VestingQueue[auction.Id][t], q.present ==> result == nil && q.AuctionId == auction.Id && q.ReleaseTime == t && q.PayingCoin.Amount >= 0 && validDenom(q.PayingCoin.Denom)))
+//@ ensures [C09] own-instalments-are-well-formed: forall(t, Time, let(q, VestingQueue[auction.Id][t], q.present ==> result == nil && q.AuctionId == auction.Id && q.ReleaseTime == t && q.PayingCoin.Amount >= 0 && validDenom(q.PayingCoin.Denom) && validAddr(q.Auctioneer) && (auction.Status == AuctionStatusVesting || auction.Status == AuctionStatusFinished)))
 
 // CloseBatchAuction (C13, C02, C08, C16): the anti-sniping decision, then either one more round or the settlement.
 //@ func (Keeper).CloseBatchAuction
+//@ serves C07
 //@ requires auctionFieldsWF(auction, auction.Id) && auction.Kind == KindBatch && auction.Id < 18446744073709551616 && Params.present && auction.Status == AuctionStatusStarted
 //@ requires InvAllowed() && Auction[auction.Id].present && Auction[auction.Id].Kind == KindBatch
 //@ requires InvBidsWF() && 0 <= BidSeq[auction.Id] && dense1(domOf(Bid, auction.Id), BidSeq[auction.Id])
 //@ requires forall(t, Time, !VestingQueue[auction.Id][t].present)
 //@ requires 0 <= MatchedBidsLen[auction.Id]
 //@ modifies Auction, Bid, MatchedBidsLen, VestingQueue, Bal, HookN, HookT, SetT, XferN, XferT, LastMatchTotal, LastMatchPrice, *auction
+//@ ensures [C19,C07] object-and-record-stay-well-formed: err == nil ==> auctionFieldsWF(auction, auction.Id) && (old(Auction[auction.Id].present ==> auctionFieldsWF(Auction[auction.Id], auction.Id)) && Auction[auction.Id].present ==> auctionFieldsWF(Auction[auction.Id], auction.Id))
 //@ ensures [C15,C10,C11] auction-ids-stay-dense: err == nil && old(InvAuctionsDense()) && old(Auction[auction.Id].present) ==> InvAuctionsDense()
 //@ ensures [C13] settles-when-no-round-is-left: result == nil && old(len(auction.EndTimes)) == auction.MaxExtendedRound + 1 ==> auction.Status != AuctionStatusStarted && len(auction.EndTimes) == old(len(auction.EndTimes))
 //@ ensures [C13] extends-when-there-was-nothing-to-compare-with: result == nil && old(len(auction.EndTimes)) != auction.MaxExtendedRound + 1 && old(MatchedBidsLen[auction.Id]) == 0 ==> len(auction.EndTimes) == old(len(auction.EndTimes)) + 1 && auction.Status == AuctionStatusStarted
@@ -528,52 +580,58 @@ package keeper
 //@ ensures [C01,C02] settlement-drains-the-escrows: result == nil && len(auction.EndTimes) == old(len(auction.EndTimes)) ==> bal(sellEsc(auction.Id), auction.SellingCoin.Denom) == 0 && bal(payEsc(auction.Id), auction.PayingCoinDenom) == 0
 //@ ensures [C16] an-extension-publishes-no-price: result == nil && len(auction.EndTimes) != old(len(auction.EndTimes)) ==> auction.MatchedPrice == old(auction.MatchedPrice)
 //@ ensures [C16] a-settlement-publishes-the-clearing-price-or-nothing: result == nil && len(auction.EndTimes) == old(len(auction.EndTimes)) ==> auction.MatchedPrice == ite(LastMatchTotal > 0, LastMatchPrice, old(auction.MatchedPrice))
-//@ ensures [C13] matched-length-recorded-for-the-next-comparison: result == nil ==> MatchedBidsLen[auction.Id].present && MatchedBidsLen[auction.Id] >= 0
+//@ ensures [C13,C07] matched-length-recorded-for-the-next-comparison: result == nil ==> MatchedBidsLen[auction.Id].present && MatchedBidsLen[auction.Id] >= 0
 //@ ensures [C19] other-auctions-untouched: forall(x, uint64, x != auction.Id ==> Auction[x] == old(Auction[x]) && MatchedBidsLen[x] == old(MatchedBidsLen[x]))
 //@ ensures [C19] other-auctions-instalments-untouched: forall(x, uint64, forall(t, Time, x != auction.Id ==> VestingQueue[x][t] == old(VestingQueue[x][t])))
-//@ ensures [C09] own-instalments-are-well-formed: forall(t, Time, let(q, VestingQueue[auction.Id][t], q.present ==> result == nil && q.AuctionId == auction.Id && q.ReleaseTime == t && q.PayingCoin.Amount >= 0 && validDenom(q.PayingCoin.Denom)))
+//@ ensures [C09] own-instalments-are-well-formed: forall(t, Time, let(q, VestingQueue[auction.Id][t], q.present ==> result == nil && q.AuctionId == auction.Id && q.ReleaseTime == t && q.PayingCoin.Amount >= 0 && validDenom(q.PayingCoin.Denom) && validAddr(q.Auctioneer) && (auction.Status == AuctionStatusVesting || auction.Status == AuctionStatusFinished)))
 //@ ensures [C11,C19,C16] only-matched-flags-of-this-auction-change: forall(a, uint64, forall(i, uint64, Bid[a][i].present == old(Bid[a][i]).present && ite(a == auction.Id, sameExcept(Bid[a][i], old(Bid[a][i]), IsMatched), Bid[a][i] == old(Bid[a][i]))))
 //@ ensures [C19,C16] only-status-end-times-and-matched-price-change: sameExcept(auction, old(auction), Status, EndTimes, MatchedPrice)
-//@ ensures [C08,C16] record-follows-the-object: result == nil ==> Auction[auction.Id].present && Auction[auction.Id].Status == auction.Status && sameExcept(Auction[auction.Id], auction)
+//@ ensures [C08,C16,C07] record-follows-the-object: result == nil ==> Auction[auction.Id].present && Auction[auction.Id].Status == auction.Status && sameExcept(Auction[auction.Id], auction)
 
 // Per-status block processing (C08, C07).
 //@ func (Keeper).ExecuteStandByStatus
 //@ requires auctionFieldsWF(auction, auction.Id) && auction.Status == AuctionStatusStandBy && auction.Id < 18446744073709551616
 //@ modifies Auction, SetT, *auction
+//@ ensures [C19,C07] object-and-record-stay-well-formed: err == nil ==> auctionFieldsWF(auction, auction.Id) && (old(Auction[auction.Id].present ==> auctionFieldsWF(Auction[auction.Id], auction.Id)) && Auction[auction.Id].present ==> auctionFieldsWF(Auction[auction.Id], auction.Id))
 //@ ensures [C15,C10,C11] auction-ids-stay-dense: err == nil && old(InvAuctionsDense()) && old(Auction[auction.Id].present) ==> InvAuctionsDense()
-//@ ensures [C08] opens-exactly-when-the-start-time-is-reached: auction.Status == ite(auction.StartTime <= BlockTime, AuctionStatusStarted, AuctionStatusStandBy)
+//@ ensures [C08,C12] opens-exactly-when-the-start-time-is-reached: auction.Status == ite(auction.StartTime <= BlockTime, AuctionStatusStarted, AuctionStatusStandBy)
 //@ ensures [C08,C16] record-follows-the-object: auction.Status == AuctionStatusStarted ==> Auction[auction.Id].present && Auction[auction.Id].Status == AuctionStatusStarted && sameExcept(Auction[auction.Id], auction)
 //@ ensures [C08,C19] nothing-else-changes: sameExcept(auction, old(auction), Status) && forall(x, uint64, x != auction.Id ==> Auction[x] == old(Auction[x])) && (auction.Status == AuctionStatusStandBy ==> Auction == old(Auction))
 //@ ensures [C07] never-fails: result == nil
 
 //@ func (Keeper).ExecuteStartedStatus
+//@ serves C07
 //@ requires auctionFieldsWF(auction, auction.Id) && auction.Status == AuctionStatusStarted && auction.Id < 18446744073709551616 && Params.present
 //@ requires InvAllowed() && Auction[auction.Id].present && Auction[auction.Id].Kind == auction.Kind
 //@ requires InvBidsWF() && 0 <= BidSeq[auction.Id] && dense1(domOf(Bid, auction.Id), BidSeq[auction.Id])
 //@ requires forall(t, Time, !VestingQueue[auction.Id][t].present) && 0 <= MatchedBidsLen[auction.Id]
 //@ modifies Auction, Bid, MatchedBidsLen, VestingQueue, Bal, HookN, HookT, SetT, XferN, XferT, LastMatchTotal, LastMatchPrice, *auction
+//@ ensures [C19,C07] object-and-record-stay-well-formed: err == nil ==> auctionFieldsWF(auction, auction.Id) && (old(Auction[auction.Id].present ==> auctionFieldsWF(Auction[auction.Id], auction.Id)) && Auction[auction.Id].present ==> auctionFieldsWF(Auction[auction.Id], auction.Id))
 //@ ensures [C15,C10,C11] auction-ids-stay-dense: err == nil && old(InvAuctionsDense()) && old(Auction[auction.Id].present) ==> InvAuctionsDense()
 //@ ensures [C08] untouched-before-the-end-time: old(auction.EndTimes[len(auction.EndTimes)-1]) > BlockTime ==> result == nil && Auction == old(Auction) && Bid == old(Bid) && Bal == old(Bal) && VestingQueue == old(VestingQueue) && MatchedBidsLen == old(MatchedBidsLen) && auction.Status == AuctionStatusStarted
 //@ ensures [C08,C13] settles-or-extends-at-the-end-time: result == nil && old(auction.EndTimes[len(auction.EndTimes)-1]) <= BlockTime ==> (auction.Status == ite(len(auction.VestingSchedules) == 0, AuctionStatusFinished, AuctionStatusVesting) && len(auction.EndTimes) == old(len(auction.EndTimes))) || (auction.Kind == KindBatch && auction.Status == AuctionStatusStarted && len(auction.EndTimes) == old(len(auction.EndTimes)) + 1)
 //@ ensures [C19] other-auctions-untouched: forall(x, uint64, x != auction.Id ==> Auction[x] == old(Auction[x]) && MatchedBidsLen[x] == old(MatchedBidsLen[x]))
 //@ ensures [C19] terms-unchanged: sameExcept(auction, old(auction), Status, EndTimes, MatchedPrice)
 //@ ensures [C19] other-auctions-instalments-untouched: forall(x, uint64, forall(t, Time, x != auction.Id ==> VestingQueue[x][t] == old(VestingQueue[x][t])))
-//@ ensures [C09] own-instalments-are-well-formed: forall(t, Time, let(q, VestingQueue[auction.Id][t], q.present ==> result == nil && q.AuctionId == auction.Id && q.ReleaseTime == t && q.PayingCoin.Amount >= 0 && validDenom(q.PayingCoin.Denom)))
+//@ ensures [C09] own-instalments-are-well-formed: forall(t, Time, let(q, VestingQueue[auction.Id][t], q.present ==> result == nil && q.AuctionId == auction.Id && q.ReleaseTime == t && q.PayingCoin.Amount >= 0 && validDenom(q.PayingCoin.Denom) && validAddr(q.Auctioneer) && (auction.Status == AuctionStatusVesting || auction.Status == AuctionStatusFinished)))
 //@ ensures [C11,C19,C16] only-matched-flags-of-this-auction-change: forall(a, uint64, forall(i, uint64, Bid[a][i].present == old(Bid[a][i]).present && ite(a == auction.Id, sameExcept(Bid[a][i], old(Bid[a][i]), IsMatched), Bid[a][i] == old(Bid[a][i]))))
-//@ ensures [C13] matched-length-stays-non-negative: result == nil ==> 0 <= MatchedBidsLen[auction.Id]
+//@ ensures [C13,C07] matched-length-stays-non-negative: result == nil ==> 0 <= MatchedBidsLen[auction.Id]
 //@ ensures [C08,C16] record-follows-the-object: result == nil && (auction.Status != AuctionStatusStarted || len(auction.EndTimes) != old(len(auction.EndTimes))) ==> Auction[auction.Id].present && Auction[auction.Id].Status == auction.Status && sameExcept(Auction[auction.Id], auction)
 
 //@ func (Keeper).ExecuteVestingStatus
+//@ serves C07
 //@ requires auctionFieldsWF(auction, auction.Id) && auction.Id < 18446744073709551616 && auction.Status == AuctionStatusVesting
 //@ requires forall(t, Time, let(q, VestingQueue[auction.Id][t], q.present ==> q.AuctionId == auction.Id && q.ReleaseTime == t && q.PayingCoin.Amount >= 0 && validDenom(q.PayingCoin.Denom)))
 //@ modifies Auction, VestingQueue, Bal, SetT, XferN, XferT, *auction
+//@ ensures [C19,C07] object-and-record-stay-well-formed: err == nil ==> auctionFieldsWF(auction, auction.Id) && (old(Auction[auction.Id].present ==> auctionFieldsWF(Auction[auction.Id], auction.Id)) && Auction[auction.Id].present ==> auctionFieldsWF(Auction[auction.Id], auction.Id))
 //@ ensures [C15,C10,C11] auction-ids-stay-dense: err == nil && old(InvAuctionsDense()) && old(Auction[auction.Id].present) ==> InvAuctionsDense()
-//@ ensures [C08,C09] finishes-exactly-when-the-last-instalment-is-released-now: result == nil ==> let(dom, old(domOf(VestingQueue, auction.Id)), let(n, ilistN(dom), auction.Status == ite(n > 0 && ilistKey(dom, n - 1) <= BlockTime && !old(VestingQueue[auction.Id][ilistKey(dom, n - 1)]).Released, AuctionStatusFinished, AuctionStatusVesting)))
+//@ ensures [C08,C09,C07] finishes-exactly-when-the-last-instalment-is-released-now: result == nil ==> let(dom, old(domOf(VestingQueue, auction.Id)), let(n, ilistN(dom), auction.Status == ite(n > 0 && ilistKey(dom, n - 1) <= BlockTime && !old(VestingQueue[auction.Id][ilistKey(dom, n - 1)]).Released, AuctionStatusFinished, AuctionStatusVesting)))
 //@ ensures [C19] other-auctions-untouched: forall(x, uint64, x != auction.Id ==> Auction[x] == old(Auction[x])) && sameExcept(auction, old(auction), Status)
 //@ ensures [C08,C16] record-follows-the-object: result == nil && auction.Status != AuctionStatusVesting ==> Auction[auction.Id].present && Auction[auction.Id].Status == AuctionStatusFinished && sameExcept(Auction[auction.Id], auction)
 //@ ensures [C08] record-untouched-otherwise: auction.Status == AuctionStatusVesting ==> Auction == old(Auction)
 //@ ensures [C09,C19] no-instalment-created-or-removed: forall(x, uint64, forall(t, Time, VestingQueue[x][t].present == old(VestingQueue[x][t]).present && (x != auction.Id ==> VestingQueue[x][t] == old(VestingQueue[x][t]))))
 //@ ensures [C09] own-instalments-stay-well-formed: forall(t, Time, let(q, VestingQueue[auction.Id][t], q.present ==> q.AuctionId == auction.Id && q.ReleaseTime == t && q.PayingCoin.Amount >= 0 && validDenom(q.PayingCoin.Denom)))
+//@ ensures [C09,C16] only-the-released-flag-changes: forall(t, Time, old(VestingQueue[auction.Id][t]).present ==> sameExcept(VestingQueue[auction.Id][t], old(VestingQueue[auction.Id][t]), Released))
 
 // Auctions: all stored auctions in ascending id order.
 //@ func (Keeper).Auctions
@@ -589,12 +647,16 @@ package keeper
 //@ ensures [C15,C10,C11] auction-ids-stay-dense: err == nil && old(InvAuctionsDense()) ==> InvAuctionsDense()
 //@ ensures [C08] status-moves-only-forward: result == nil ==> forall(x, uint64, old(Auction[x]).present ==> Auction[x].present && forward(old(Auction[x]).Status, Auction[x].Status))
 //@ ensures [C08,C12] no-auction-appears-or-disappears: result == nil ==> domOf(Auction) == old(domOf(Auction))
-//@ ensures [C08] waiting-auctions-open-exactly-at-their-start-time: result == nil ==> let(dom, old(domOf(Auction)), forall(j, int, 0 <= j && j < ilistN(dom) ==> let(x, ilistKey(dom, j), old(Auction[x]).Status == AuctionStatusStandBy ==> Auction[x].Status == ite(old(Auction[x]).StartTime <= BlockTime, AuctionStatusStarted, AuctionStatusStandBy))))
+//@ ensures [C08,C12] waiting-auctions-open-exactly-at-their-start-time: result == nil ==> let(dom, old(domOf(Auction)), forall(j, int, 0 <= j && j < ilistN(dom) ==> let(x, ilistKey(dom, j), old(Auction[x]).Status == AuctionStatusStandBy ==> Auction[x].Status == ite(old(Auction[x]).StartTime <= BlockTime, AuctionStatusStarted, AuctionStatusStandBy))))
 //@ ensures [C08] open-auctions-are-untouched-before-their-end-time: result == nil ==> let(dom, old(domOf(Auction)), forall(j, int, 0 <= j && j < ilistN(dom) ==> let(x, ilistKey(dom, j), old(Auction[x]).Status == AuctionStatusStarted && old(Auction[x]).EndTimes[len(old(Auction[x]).EndTimes)-1] > BlockTime ==> Auction[x] == old(Auction[x]))))
 //@ ensures [C08,C13] open-auctions-settle-or-extend-at-their-end-time: result == nil ==> let(dom, old(domOf(Auction)), forall(j, int, 0 <= j && j < ilistN(dom) ==> let(x, ilistKey(dom, j), old(Auction[x]).Status == AuctionStatusStarted && old(Auction[x]).EndTimes[len(old(Auction[x]).EndTimes)-1] <= BlockTime ==> (Auction[x].Status == ite(len(Auction[x].VestingSchedules) == 0, AuctionStatusFinished, AuctionStatusVesting)) || (Auction[x].Kind == KindBatch && Auction[x].Status == AuctionStatusStarted && len(Auction[x].EndTimes) == len(old(Auction[x]).EndTimes) + 1))))
 //@ ensures [C07,C08,C12] finished-and-cancelled-are-permanent-and-harmless: result == nil ==> let(dom, old(domOf(Auction)), forall(j, int, 0 <= j && j < ilistN(dom) ==> let(x, ilistKey(dom, j), old(Auction[x]).Status == AuctionStatusFinished || old(Auction[x]).Status == AuctionStatusCancelled ==> Auction[x] == old(Auction[x]))))
 //@ ensures [C19] agreed-terms-never-change: result == nil ==> forall(x, uint64, old(Auction[x]).present ==> sameExcept(Auction[x], old(Auction[x]), Status, EndTimes, MatchedPrice))
+//@ ensures [C07,C08,C19] preserves-the-module-invariant: result == nil ==> Inv() && InvVQ() && InvMatched()
 //@ loop 0 let DOM = domOf(Auction)
+//@ loop 0 invariant InvAuctions()
+//@ loop 0 invariant InvVQ()
+//@ loop 0 invariant InvAllowed() && AllowedBidder == old(AllowedBidder)
 //@ loop 0 invariant 0 <= idx && idx <= len(auctions) && len(auctions) == ilistN(DOM) && domOf(Auction) == DOM && DOM == old(domOf(Auction)) && Params.present
 //@ loop 0 invariant forall(j, int, idx <= j && j < len(auctions) ==> auctions[j] == old(Auction[ilistKey(DOM, j)]) && Auction[ilistKey(DOM, j)] == old(Auction[ilistKey(DOM, j)]))
 //@ loop 0 invariant forall(x, uint64, old(Auction[x]).present ==> Auction[x].present && forward(old(Auction[x]).Status, Auction[x].Status) && sameExcept(Auction[x], old(Auction[x]), Status, EndTimes, MatchedPrice))
